@@ -1917,9 +1917,12 @@ class _Simu(_IObserver, _params.Updatable, ABC):
         tic.Tac("Solver", f"Construct A ({problemType}, {algo})", self._verbosity)
 
         if self.isNonLinear:
-            # dofsValues = dofsValues - u
-            # set incremental dof values
-            dofsValues -= self._Solver_Get_Newton_Raphson_current_solution()[dofs]
+            # set incremental dof values: prescribed - u.
+            # A dof entered several times is prescribed the sum of its entries, so the current value
+            # is subtracted from one of them only.
+            _, first = np.unique(dofs, return_index=True)
+            current = self._Solver_Get_Newton_Raphson_current_solution()
+            dofsValues[first] -= current[dofs[first]]
 
         if algo == AlgoType.euler_explicit:
             # the solve variable is a^n: constrained DOFs have zero acceleration
